@@ -82,6 +82,10 @@ pub struct Profile {
     pub big_permille: u32,
     /// allow the per-run swarm to zero out families
     pub swarm: bool,
+    /// permille of runs that start with a scripted prologue leaving a *conflicted text element whose values differ in
+    /// width* (two replicas put on the same element of a shared text concurrently, then merge) - a prior state the
+    /// random part of a short run almost never builds by itself (measured: 1 splice in 53 000 met one)
+    pub text_conflict_prologue_permille: u32,
     /// long single-actor chains (to reach clock caches / slab splits)
     pub long_chain_permille: u32,
     pub bloom_fp: Vec<u32>,
@@ -157,6 +161,7 @@ impl Default for Profile {
             quarantine_on_permille: 120,
             big_permille: 80,
             swarm: true,
+            text_conflict_prologue_permille: 0,
             long_chain_permille: 30,
             bloom_fp: vec![0],
             encs: vec![Enc::CodePoint, Enc::Utf8, Enc::Utf16, Enc::Grapheme],
@@ -557,6 +562,41 @@ pub fn gen_run(seed: u64, p: &Profile) -> (Cfg, Vec<Ev>) {
             _ => Ev::IdFuzz { r, what: *rng.pickv(&p.id_fuzz_kinds), sel: rng.next_u32(), m: gen_mutation(&mut rng, p) },
         };
         evs.push(ev);
+    }
+    let mut cfg = cfg;
+    let mut evs = evs;
+    // decided from a stream of its own, so that switching the prologue on for a property leaves its other runs as they were
+    let mut prng = Rng::new(seed ^ 0x7E47_C0F1_1CE5_0001);
+    if prng.chance(p.text_conflict_prologue_permille) && replicas < 8 {
+        // text-rich mode (World::resolve): p1 % 4 == 1 routes every second put to a text object, hot index p2 % 3
+        cfg.p1 = cfg.p1 - cfg.p1 % 4 + 1;
+        let fork = replicas; // index of the replica the Fork below creates
+        // key with (key >> 9) % 2 == 0 (goes to a text object) and key % 3 != 0 (hot index)
+        let key = |rng: &mut Rng| loop {
+            let k = rng.next_u32();
+            if (k >> 9) % 2 == 0 && k % 3 != 0 {
+                break k;
+            }
+        };
+        let vals = [SvE::Str("hello".into()), SvE::Int(3), SvE::Str("é".into()), SvE::Str("xy".into()), SvE::Str("👨‍👩‍👧".into())];
+        let (v1, v2) = (prng.usize(vals.len()), prng.usize(vals.len()));
+        let pro = vec![
+            Ev::Edit { r: 0, op: EditOp::PutObj { obj: ObjSel::Root, key: prng.next_u32(), ty: OT::Text } },
+            Ev::Edit { r: 0, op: EditOp::SpliceText { obj: ObjSel::Known(0), pos: 1, del: 0, text: "abcdef".into() } },
+            Ev::Commit { r: 0, msg: None, dt: 1 },
+            Ev::Fork { r: 0, same_actor: false },
+            Ev::Edit { r: 0, op: EditOp::Put { obj: ObjSel::Known(0), key: key(&mut prng), val: vals[v1].clone() } },
+            Ev::Edit { r: fork, op: EditOp::Put { obj: ObjSel::Known(0), key: key(&mut prng), val: vals[v2].clone() } },
+            Ev::Commit { r: 0, msg: None, dt: 1 },
+            Ev::Commit { r: fork, msg: None, dt: 1 },
+            Ev::Merge { from: fork, to: 0 },
+        ];
+        let tail = std::mem::take(&mut evs);
+        evs = pro;
+        if prng.bool() {
+            evs.push(Ev::Merge { from: 0, to: fork });
+        }
+        evs.extend(tail);
     }
     (cfg, evs)
 }
